@@ -16,7 +16,7 @@ import (
 // sshdItem is one line written to the sshd pipe ("<pid> <message>\n") together with the fields of
 // the UserLogin event it must produce.
 type sshdItem struct {
-	Kind    string `json:"kind"` // accepted_password | accepted_key | accepted_cert | failed_password | invalid_user
+	Kind    string `json:"kind"` // accepted_password | accepted_key | accepted_cert | failed_password | invalid_user | max_attempts
 	PID     int    `json:"pid"`
 	User    string `json:"user"`
 	Addr    string `json:"addr"`
@@ -25,6 +25,9 @@ type sshdItem struct {
 	Pad     int    `json:"pad"`              // extra blanks between the pid and the message (rsyslog's %msg% starts with a blank)
 	Msg     string `json:"msg"`
 	Session int    `json:"session"` // index of the session plan the line belongs to, -1 = stand-alone
+	// the client-chosen field of this line (user name of a failure line, key id of a certificate login) holds text that
+	// looks like another record: see hostile.go
+	Hostile *hostileInfo `json:"hostile,omitempty"`
 }
 
 func (s sshdItem) accepted() bool { return strings.HasPrefix(s.Kind, "accepted") }
@@ -201,6 +204,8 @@ func genSshdWith(r *hutil.Rand, kind string, pid, session int, user, keyID strin
 		it.Msg = fmt.Sprintf("Failed password for %s from %s port %s ssh2", it.User, it.Addr, it.Port)
 	case "invalid_user":
 		it.Msg = fmt.Sprintf("Invalid user %s from %s port %s", it.User, it.Addr, it.Port)
+	case "max_attempts":
+		it.Msg = fmt.Sprintf("maximum authentication attempts exceeded for %s from %s port %s ssh2", it.User, it.Addr, it.Port)
 	default:
 		panic("unknown sshd kind " + kind)
 	}
@@ -397,6 +402,7 @@ func genScenario(r *hutil.Rand, big bool) *scenario {
 		return n
 	}
 	var seqs [][]*protoItem // per session: its items in the order they must be written
+	var users []string      // per session: the account of its (would-be) login
 	usedPID := map[int]bool{}
 	usedSes := map[int]bool{}
 	newPID := func() int {
@@ -509,6 +515,14 @@ func genScenario(r *hutil.Rand, big bool) *scenario {
 			it := genSshd(r, acceptedKind(), sp.PID, i, user)
 			if longKey != "" {
 				it = genSshdCert(r, sp.PID, i, user, longKey)
+			} else if it.Kind == "accepted_cert" && i > 0 && r.Chance(1, 4) {
+				// this session's OWN certificate carries a key id (chosen by whoever had it signed) that looks like the
+				// accepted-login record of an earlier session's sshd process: it is this session's userID, nothing more
+				ti := r.Intn(i)
+				kid, info := genHostileText(r, sc.Sessions[ti].PID, otherUser(r, users, ti), true)
+				info.Field, info.Target, info.Position = "key-id", ti, "own-login-of-a-later-session"
+				it = genSshdCert(r, sp.PID, i, user, kid)
+				it.Hostile = &info
 			}
 			loginItem = &protoItem{sshd: &it}
 			sshdSide = append(sshdSide, loginItem)
@@ -541,6 +555,7 @@ func genScenario(r *hutil.Rand, big bool) *scenario {
 			seq = append(append(append([]*protoItem{}, audit[:pos]...), sshdSide...), audit[pos:]...)
 		}
 		seqs = append(seqs, seq)
+		users = append(users, user)
 		sc.Sessions = append(sc.Sessions, sp)
 	}
 	// stand-alone failures (their own sshd processes)
@@ -556,6 +571,41 @@ func genScenario(r *hutil.Rand, big bool) *scenario {
 			s = append(s, &protoItem{sshd: &c})
 		}
 		seqs = append(seqs, s)
+	}
+
+	// hostile client-chosen text (hostile.go): failure lines of OTHER sshd processes - and certificate logins of further
+	// login-only sessions - whose client-chosen field looks like an accepted-login record of one of the scenario's
+	// sessions (every session kind is a target); each is put into the target session's own sequence, before / after its
+	// LOGIN record and its genuine login, so that the arrival order relative to them is the generated one
+	if r.Chance(3, 4) {
+		nSessions := len(sc.Sessions) // targets: the sessions generated above
+		for k := 1 + r.Intn(3); k > 0; k-- {
+			ti := r.Intn(nSessions)
+			if sc.Sessions[ti].Kind != "full" && r.Bool() { // prefer sessions that must produce UserActions
+				for tries := 0; tries < 8 && sc.Sessions[ti].Kind != "full"; tries++ {
+					ti = r.Intn(nSessions)
+				}
+			}
+			var it sshdItem
+			if r.Chance(1, 5) {
+				// carrier: the certificate login of a further sshd process without audit session; key-id domain
+				kid, info := genHostileText(r, sc.Sessions[ti].PID, otherUser(r, users, ti), true)
+				info.Field, info.Target = "key-id", ti
+				sp := sessionPlan{Kind: "login-only", PID: newPID(), Ses: newSes(), Login: -1}
+				it = genSshdCert(r, sp.PID, len(sc.Sessions), genName(r), kid)
+				it.Hostile = &info
+				sc.Sessions = append(sc.Sessions, sp)
+			} else {
+				name, info := genHostileText(r, sc.Sessions[ti].PID, otherUser(r, users, ti), false)
+				info.Field, info.Target = "user-name", ti
+				it = genHostileFailure(r, hutil.Pick(r, hostileCarriers), newPID(), -1, name)
+				it.Hostile = &info
+			}
+			at, where := hostilePosition(r, seqs[ti])
+			it.Hostile.Position = where
+			item := &protoItem{sshd: &it}
+			seqs[ti] = append(append(append([]*protoItem{}, seqs[ti][:at]...), item), seqs[ti][at:]...)
+		}
 	}
 
 	// merge: random interleaving that keeps each sequence's order; sometimes runs of one sequence
@@ -592,7 +642,7 @@ func genScenario(r *hutil.Rand, big bool) *scenario {
 	}
 	var nearLogin []int
 	for i, it := range merged {
-		if it.sshd != nil && it.sshd.accepted() {
+		if it.sshd != nil && (it.sshd.accepted() || it.sshd.Hostile != nil) {
 			if i > 0 {
 				nearLogin = append(nearLogin, i)
 			}
